@@ -559,7 +559,7 @@ def sub_history(ctx, shard, n):
         ctx.given("history", check_history, strat, 120)
     else:
         strat = st.fixed_dictionaries({"history": hist | focus, "probe": st.none()})
-        ctx.given("history", check_history, strat, 300)
+        ctx.given("history", check_history, strat, 600)
 
 
 def sub_fft(ctx, shard, n):
